@@ -151,7 +151,12 @@ def f_negsphere(x):
     return (-float(sum(xi * xi for xi in x)),)
 
 
-SINGLE = {"sphere": f_sphere, "ellipsoid": f_ellipsoid, "rastrigin": f_rastrigin, "step": f_step}
+def f_noise(x):
+    # deterministic but chaotic in x: offspring are often worse than old ancestors (negative updates)
+    return (float(math.sin(12345.678 * sum(x)) + 1.0 + 1e-3 * sum(xi * xi for xi in x)),)
+
+
+SINGLE = {"sphere": f_sphere, "ellipsoid": f_ellipsoid, "rastrigin": f_rastrigin, "step": f_step, "noise": f_noise}
 
 
 def mo_two_spheres(x):
@@ -960,40 +965,48 @@ def main(run):
         return [round(rng.uniform(lo, hi), 3) for _ in range(dim)]
 
     # ---------------- plain (1+lambda) ----------------
-    n_hist = run.scale(10, 60)
+    n_hist = run.scale(16, 90)
     for h in range(n_hist):
         small = h % 3 != 2
         dim = rng.randint(2, 6) if small else rng.randint(7, 10)
         lam = rng.choice([1, 1, 2, 3, 5, 8, 10, 20]) if h >= 8 else [1, 2, 4, 10, 20, 1, 3, 7][h]
-        rounds = run.scale(rng.choice([30, 60, 100]), rng.choice([60, 150, 300]))
-        cfg = {"dim": dim, "lambda": lam, "sigma": rng.choice([0.1, 0.5, 1.0, 5.0]), "parent": rparent(dim),
-               "objective": ["sphere", "step", "ellipsoid", "negsphere", "rastrigin"][h % 5], "rounds": rounds,
-               "seed": rng.randrange(2 ** 31)}
+        rounds = run.scale(rng.choice([40, 100, 300]), rng.choice([100, 200, 300]))
+        far = h % 4 == 3          # far from the optimum with a tiny step: success rate above the threshold
+        cfg = {"dim": dim, "lambda": lam, "sigma": 0.01 if far else rng.choice([0.1, 0.5, 1.0, 5.0]),
+               "parent": rparent(dim, 5.0, 9.0) if far else rparent(dim),
+               "objective": "sphere" if far else ["sphere", "step", "ellipsoid", "negsphere", "rastrigin", "noise"][h % 6],
+               "rounds": rounds, "seed": rng.randrange(2 ** 31)}
         cfg["send"] = pick_send(rng, rounds, run.scale(10, 25)) if dim <= 6 else set()
         run_plain(ctx, cfg)
     # ---------------- active (1+lambda) ----------------
-    n_hist = run.scale(14, 80)
+    n_hist = run.scale(24, 120)
     for h in range(n_hist):
         small = h % 4 != 3
         dim = rng.randint(2, 6) if small else rng.randint(7, 10)
         lam = rng.choice([1, 1, 2, 4, 6, 10, 20]) if h >= 7 else [1, 2, 4, 10, 20, 1, 5][h]
         ncons = [0, 1, 2, 3, 0, 2][h % 6]
         integer = h % 3 == 1
+        noisy = h % 8 in (0, 5)   # chaotic objective, low dimension: negative updates and the ccovn clamp
+        far = h % 8 == 2
+        if noisy:
+            dim, ncons, integer = rng.randint(2, 3), 0, False
+            lam = rng.choice([1, 2, 4])
         steps = [0.0] * dim
         if integer:
             for j in rng.sample(range(dim), rng.randint(1, dim)):
                 steps[j] = rng.choice([0.1, 0.5, 1.0, 2.0])
-        rounds = run.scale(rng.choice([40, 80, 120]), rng.choice([80, 200, 300]))
-        parent = [round(rng.uniform(1.0, 3.0), 3) for _ in range(dim)]
+        rounds = run.scale(rng.choice([60, 120, 300]), rng.choice([100, 200, 300]))
+        parent = [round(rng.uniform(1.0, 3.0) + (5.0 if far else 0.0), 3) for _ in range(dim)]
         if integer:
             parent = [(round(p / s) * s if s > 0 else p) for p, s in zip(parent, steps)]
-        cfg = {"dim": dim, "lambda": lam, "sigma": rng.choice([0.2, 0.5, 1.0]), "parent": parent,
-               "objective": ["sphere", "ellipsoid", "step", "rastrigin"][h % 4], "constraints": ncons, "steps": steps,
+        cfg = {"dim": dim, "lambda": lam, "sigma": 0.01 if far else rng.choice([0.2, 0.5, 1.0]), "parent": parent,
+               "objective": "noise" if noisy else ("sphere" if far else ["sphere", "ellipsoid", "step", "rastrigin"][h % 4]),
+               "constraints": ncons, "steps": steps,
                "bare_parent": h % 5 == 4, "rounds": rounds, "seed": rng.randrange(2 ** 31)}
         cfg["send"] = pick_send(rng, rounds, run.scale(10, 25)) if dim <= 6 else set()
         run_active(ctx, cfg)
     # ---------------- multi-objective ----------------
-    n_hist = run.scale(10, 60)
+    n_hist = run.scale(16, 90)
     for h in range(n_hist):
         small = h % 3 != 2
         dim = rng.randint(2, 5) if small else rng.randint(6, 10)
@@ -1001,10 +1014,14 @@ def main(run):
         lam = mu if h % 2 == 0 else rng.choice([x for x in [1, 2, 3, 5, 8, 12, 20] if x != mu])
         if small:
             lam = min(lam, 8)
-        rounds = run.scale(rng.choice([20, 40, 60]), rng.choice([60, 150, 300]))
-        cfg = {"dim": dim, "mu": mu, "lambda": lam, "sigma": rng.choice([0.3, 1.0, 2.0]),
-               "parents": [rparent(dim, -1.0, 1.0) for _ in range(mu)],
-               "objective": ["two_spheres", "zdt1", "stepped"][h % 3], "rounds": rounds, "seed": rng.randrange(2 ** 31)}
+            if lam == mu and h % 2 == 1:
+                lam = mu + 1
+        far = h % 5 == 4
+        rounds = run.scale(rng.choice([30, 60, 150]), rng.choice([60, 150, 300]))
+        cfg = {"dim": dim, "mu": mu, "lambda": lam, "sigma": 0.01 if far else rng.choice([0.3, 1.0, 2.0]),
+               "parents": [rparent(dim, 4.0, 6.0) if far else rparent(dim, -1.0, 1.0) for _ in range(mu)],
+               "objective": "two_spheres" if far else ["two_spheres", "zdt1", "stepped"][h % 3], "rounds": rounds,
+               "seed": rng.randrange(2 ** 31)}
         cfg["send"] = pick_send(rng, rounds, run.scale(8, 20)) if small else set()
         run_mo(ctx, cfg)
 
